@@ -1,6 +1,7 @@
 """C05 -- stream control protocol holds at every operator boundary."""
 from props.ops import *        # noqa
 from props.start import *      # noqa
+from props.joins import *      # noqa
 
 META = {
     'explanation': 'Stream grammar: Start (N upstream replicas, every arrival interleaving, timeouts) and the stateful '
@@ -17,7 +18,8 @@ META = {
 
 def TASKS(tier):
     return (start_tasks(tier, 'start', progress=False) + fold_tasks(tier, 'fold') + keyed_fold_tasks(tier, 'keyed_fold') +
-            window_op_tasks(tier, 'window_operator'))
+            window_op_tasks(tier, 'window_operator') +
+            [t for t in join_tasks(tier, 'join') if t.params['iters'] > 1])
 
 
 def classify(t, v):
